@@ -73,7 +73,7 @@ Proof.
     rewrite Es in b_full0. simpl in b_full0. destruct (exraw s); simpl; lia.
   - intros Hr g. specialize (b_flag0 Hr g). unfold fupd. destruct (Nat.eqb_spec g p) as [->|Hne]; auto.
     destruct b_flag0 as [[A|A] B]; rewrite Es in A; [discriminate|]. inversion A; subst.
-    rewrite b_raw0, Hr. split; [left; reflexivity|]. apply Forall_app. split; auto.
+    rewrite Hr. split; [left; reflexivity|]. apply Forall_app. split; auto.
 Qed.
 
 (** ---- frames ---- *)
@@ -113,15 +113,15 @@ Proof.
     { intros q Hp Hq. unfold do_store. destruct I.
       assert (CntS : forall s, cnt (hpre s) (upd fr k (mkFrame (FH sg info) q)) + (if Nat.eqb sg s then 1 else 0) = cnt (hpre s) fr).
       { intro s. pose proof (cnt_upd (hpre s) fr k _ (mkFrame (FH sg info) q) Hk) as C. unfold hpre in C. simpl in C.
-        rewrite Hp, Hq in C. destruct (Nat.eqb sg s); simpl in C; lia. }
+        rewrite Hp, Hq in C. unfold hpre. destruct (Nat.eqb sg s); simpl in C; lia. }
       assert (CntV : forall s v, cnt (hprev s v) (upd fr k (mkFrame (FH sg info) q)) + (if Nat.eqb sg s && Z.eqb info v then 1 else 0) = cnt (hprev s v) fr).
       { intros s v. pose proof (cnt_upd (hprev s v) fr k _ (mkFrame (FH sg info) q) Hk) as C. unfold hprev in C. simpl in C.
-        rewrite Hp, Hq in C. destruct (Nat.eqb sg s && Z.eqb info v); simpl in C; lia. }
+        rewrite Hp, Hq in C. unfold hprev. destruct (Nat.eqb sg s && Z.eqb info v); simpl in C; lia. }
       assert (AddK : forall j g r, nth_error (upd fr k (mkFrame (FH sg info) q)) j = Some (mkFrame (FA g) r) -> g < MAX_SIGNUM).
       { eapply add_upd; eauto. intros; discriminate. }
       destruct (exraw sh) eqn:Er; [destruct (length (slot sh sg) <? CHAN_SLOTS) eqn:El|].
       - (* enqueued *)
-        apply Nat.ltb_lt in El. constructor; simpl; auto.
+        apply Nat.ltb_lt in El. constructor; simpl; auto; try congruence.
         + intro s. specialize (b_cnt0 s). unfold fupd. destruct (Nat.eqb_spec s sg) as [->|Hne]; auto.
           rewrite app_length. simpl. lia.
         + intro s. specialize (b_beg0 s). specialize (CntS s). unfold fupd.
@@ -139,9 +139,8 @@ Proof.
             -- rewrite Z.eqb_refl in CntV. lia.
             -- destruct (Z.eqb_spec info v); [congruence|]. lia.
           * destruct (Nat.eqb_spec sg s); [congruence|]. simpl in CntV. lia.
-        + intros Hr. congruence.
       - (* dropped: the channel is full *)
-        constructor; simpl; auto.
+        constructor; simpl; auto; try congruence.
         + intro s. specialize (b_cnt0 s). unfold fupd. destruct (Nat.eqb_spec s sg) as [->|Hne]; auto.
         + intro s. specialize (b_beg0 s). specialize (CntS s). unfold fupd.
           destruct (Nat.eqb_spec s sg) as [->|Hne].
@@ -149,17 +148,13 @@ Proof.
           * destruct (Nat.eqb_spec sg s); [congruence|]. lia.
         + intros Hr s v. specialize (b_occ0 Hr s v). specialize (CntV s v).
           destruct (Nat.eqb sg s && Z.eqb info v); lia.
-        + intros Hr. congruence.
       - (* SignalOnly: set the flag *)
-        constructor; simpl; auto.
+        constructor; simpl; auto; try congruence.
         + intro s. specialize (b_cnt0 s). unfold fupd. destruct (Nat.eqb_spec s sg) as [->|Hne]; auto. simpl. lia.
         + intro s. specialize (b_beg0 s). specialize (CntS s). unfold fupd.
           destruct (Nat.eqb_spec s sg) as [->|Hne].
           * rewrite Nat.eqb_refl in CntS. lia.
           * destruct (Nat.eqb_spec sg s); [congruence|]. lia.
-        + intros Hr. congruence.
-        + intros Hr. congruence.
-        + intros Hr. congruence.
         + intros Hr s. specialize (b_flag0 Hr s). unfold fupd. destruct (Nat.eqb_spec s sg) as [->|Hne]; auto.
           destruct b_flag0 as [_ B]. split; auto. }
     destruct action_store_first; destruct p; simpl;
@@ -180,9 +175,122 @@ Proof.
       destruct I. constructor; simpl; auto.
       * intro s. rewrite (cnt_upd_eq (hpre s) fr k _ (mkFrame (FA sg) F2) Hk eq_refl). auto.
       * intros s Hs. apply b_wat0. unfold fupd in Hs. destruct (Nat.eqb s sg); [discriminate|auto].
-      * intros s Hs. unfold fupd in Hs. destruct (Nat.eqb_spec s sg) as [->|Hne]; auto.
+      * intros s Hs. destruct (Nat.eq_dec s sg) as [E|Hne]; [subst; auto|]. rewrite fupd_neq in Hs by auto. auto.
       * intros Hr s v. rewrite (cnt_upd_eq (hprev s v) fr k _ (mkFrame (FA sg) F2) Hk eq_refl). auto.
       * eapply add_upd; eauto. intros ? ? E; inversion E; eauto.
     + apply Triv; [repeat split|intro; reflexivity|intros; reflexivity|intros ? ? E; inversion E; eauto].
     + apply Triv; [apply same_b_refl|intro; reflexivity|intros; reflexivity|intros ? ? E; inversion E; eauto].
+Qed.
+
+(** ---- the consumer and the batches only load ---- *)
+Lemma cstep_b s c b ch :
+  let s' := fst (fst (fst (cstep s c b ch))) in same_b s s' \/ exists p, s' = snd (do_load s p).
+Proof.
+  unfold cstep. destruct (cpc_ c); simpl.
+  - left; apply same_b_refl.
+  - destruct (cop c); simpl; left; repeat split.
+  - left; apply same_b_refl.
+  - destruct (Nat.eqb ch 1); [left; apply same_b_refl|]. destruct (pipe s); simpl; left; repeat split.
+  - destruct (closed s); simpl; left; apply same_b_refl.
+  - right. exists (itpos c). destruct (do_load s (itpos c)) as [[v|] s']; reflexivity.
+  - unfold none_exit, pend_exit. destruct (closed s); [|left; apply same_b_refl].
+    destruct poll_none_retest; simpl; [left; apply same_b_refl|]. destruct (cop c); simpl; left; apply same_b_refl.
+  - unfold none_exit, pend_exit. destruct (pipe s); [|simpl; left; repeat split].
+    destruct poll_none_retest; simpl; [left; repeat split|]. destruct (cop c); simpl; left; repeat split.
+  - unfold pend_exit. destruct (closed s); simpl; [left; apply same_b_refl|]. destruct (cop c); simpl; left; apply same_b_refl.
+Qed.
+
+Lemma ccall_b s c g o : same_b s (fst (fst (fst (ccall s c g o)))).
+Proof.
+  unfold ccall. destruct (cpc_ c); simpl; try apply same_b_refl.
+  destruct o; simpl; try apply same_b_refl; destruct (cit c); simpl; try apply same_b_refl; repeat split.
+Qed.
+
+Lemma cnt_snoc (P : frame -> bool) fr f : cnt P (fr ++ [f]) = cnt P fr + b2n (P f).
+Proof. rewrite cnt_app. unfold cnt at 2. simpl. destruct (P f); reflexivity. Qed.
+
+Lemma InvB_wstep raw w l : InvB raw (w_sh w) (w_fr w) -> InvB raw (w_sh (fst (wstep w l))) (w_fr (fst (wstep w l))).
+Proof.
+  intro I. destruct l; simpl.
+  - pose proof (ccall_b (w_sh w) (w_co w) (w_gone w) o) as H.
+    destruct (ccall (w_sh w) (w_co w) (w_gone w) o) as [[[s c] g] es]. simpl in *. eapply InvB_same; eauto.
+  - pose proof (cstep_b (w_sh w) (w_co w) (w_bats w) ch) as H.
+    destruct (cstep (w_sh w) (w_co w) (w_bats w) ch) as [[[s c] b] es]. simpl in *.
+    destruct H as [H|[p ->]]; [eapply InvB_same; eauto|apply InvB_load; auto].
+  - destruct (nth_error (w_bats w) k) as [p|]; [|exact I]. unfold bstep.
+    destruct (p <? MAX_SIGNUM); [|exact I].
+    pose proof (InvB_load raw (w_sh w) (w_fr w) p I) as H.
+    destruct (do_load (w_sh w) p) as [[v|] s']; exact H.
+  - destruct (nth_error (w_fr w) k) as [f|] eqn:E; [|exact I].
+    pose proof (InvB_frame raw (w_sh w) (w_fr w) k f I E) as H.
+    destruct (fstep (w_sh w) f) as [[s f'] es]. exact H.
+  - destruct (watch (w_sh w) sg) eqn:Ew; [|exact I]. simpl. destruct I.
+    assert (Hp : is_pre (mkFrame (FH sg info) F0) = true) by (unfold is_pre; simpl; destruct action_store_first; reflexivity).
+    constructor; simpl; auto.
+    + intro s. rewrite cnt_snoc. unfold hpre at 2. simpl. rewrite Hp. specialize (b_beg0 s).
+      unfold fupd. destruct (Nat.eqb_spec s sg) as [->|Hne].
+      * rewrite Nat.eqb_refl. simpl. rewrite app_length. simpl. lia.
+      * destruct (Nat.eqb_spec sg s); [congruence|]. simpl. lia.
+    + intros s Hs. unfold fupd. destruct (Nat.eqb_spec s sg) as [->|Hne]; [congruence|auto].
+    + intros Hr s v. rewrite cnt_snoc. unfold hprev at 2. simpl. rewrite Hp. specialize (b_occ0 Hr s v).
+      unfold fupd. destruct (Nat.eqb_spec s sg) as [->|Hne].
+      * rewrite Nat.eqb_refl. simpl. rewrite occ_app. unfold occ at 3. simpl.
+        destruct (Z.eq_dec info v) as [->|Hv].
+        -- rewrite Z.eqb_refl. simpl. lia.
+        -- destruct (Z.eqb_spec info v); [congruence|]. simpl. lia.
+      * destruct (Nat.eqb_spec sg s); [congruence|]. simpl. lia.
+    + intros k g p Hk. apply nth_app_cases in Hk. destruct Hk as [Hk|[_ Hk]]; [eauto|discriminate].
+  - destruct I. constructor; simpl; auto.
+    + intro s. rewrite cnt_snoc. simpl. specialize (b_beg0 s). lia.
+    + intros Hr s v. rewrite cnt_snoc. simpl. specialize (b_occ0 Hr s v). lia.
+    + intros k g p Hk. apply nth_app_cases in Hk. destruct Hk as [Hk|[_ Hk]]; [eauto|discriminate].
+  - destruct (sg <? MAX_SIGNUM) eqn:El; [|exact I]. apply Nat.ltb_lt in El. destruct I. constructor; simpl; auto.
+    + intro s. rewrite cnt_snoc. simpl. specialize (b_beg0 s). lia.
+    + intros Hr s v. rewrite cnt_snoc. simpl. specialize (b_occ0 Hr s v). lia.
+    + intros k g p Hk. apply nth_app_cases in Hk. destruct Hk as [Hk|[_ Hk]]; [eauto|]. inversion Hk; subst; auto.
+Qed.
+
+Theorem InvB_reach raw c ls : InvB raw (w_sh (reach raw c ls)) (w_fr (reach raw c ls)).
+Proof.
+  apply (reach_ind (fun w => InvB raw (w_sh w) (w_fr w))).
+  - apply InvB_init.
+  - intros w l I. apply InvB_wstep. exact I.
+Qed.
+
+(** ---- the statements of C10 ---- *)
+Theorem counts raw c ls s :
+  let sh := w_sh (reach raw c ls) in
+  length (ylog sh s) + length (slot sh s) <= nstored sh s /\ nstored sh s <= length (begun sh s).
+Proof.
+  simpl. pose proof (InvB_reach raw c ls) as I. split; [apply (b_cnt _ _ _ I)|]. pose proof (b_beg _ _ _ I s). lia.
+Qed.
+
+Theorem only_watched raw c ls s :
+  let sh := w_sh (reach raw c ls) in
+  ylog sh s <> [] -> watch sh s = true /\ s < MAX_SIGNUM.
+Proof.
+  simpl. intro Hy. pose proof (InvB_reach raw c ls) as I.
+  assert (W : watch (w_sh (reach raw c ls)) s = true).
+  { destruct (watch (w_sh (reach raw c ls)) s) eqn:E; auto. pose proof (b_wat _ _ _ I s E) as Hb.
+    pose proof (b_cnt _ _ _ I s). pose proof (b_beg _ _ _ I s). rewrite Hb in *. simpl in *.
+    destruct (ylog (w_sh (reach raw c ls)) s); [congruence|simpl in *; lia]. }
+  split; auto. apply (b_max _ _ _ I s W).
+Qed.
+
+Theorem fifo c ls s :
+  let sh := w_sh (reach true c ls) in
+  stlog sh s = ylog sh s ++ slot sh s /\ length (slot sh s) <= CHAN_SLOTS /\
+  forall v, occ v (ylog sh s) <= occ v (stlog sh s) /\ occ v (stlog sh s) <= occ v (begun sh s).
+Proof.
+  simpl. pose proof (InvB_reach true c ls) as I. pose proof (b_fifo _ _ _ I eq_refl s) as F.
+  split; [exact F|]. split; [apply (b_full _ _ _ I eq_refl)|]. intro v. split.
+  - rewrite F, occ_app. lia.
+  - pose proof (b_occ _ _ _ I eq_refl s v). lia.
+Qed.
+
+Theorem signal_only c ls s :
+  let sh := w_sh (reach false c ls) in
+  Forall (eq (zn s)) (ylog sh s) /\ length (slot sh s) <= 1.
+Proof.
+  simpl. pose proof (InvB_reach false c ls) as I. destruct (b_flag _ _ _ I eq_refl s) as [[A|A] B]; split; auto; rewrite A; simpl; lia.
 Qed.
